@@ -238,6 +238,16 @@ class LibMap:
             pointee = ct
         if pointee.startswith("struct vf_seq_"):
             return self.seq_call(em, n, pointee[len("struct vf_seq_"):], self.obj_ptr(em, base, arrow), name, args)
+        if pointee.startswith("struct vf_arr_"):
+            # std::array<T,N> -> struct vf_arr_T_N { T a[N]; }
+            o = "%s->a" % em.paren(self.obj_ptr(em, base, arrow))
+            if name == "data" or name in ("begin", "cbegin"):
+                return "(%s)" % o
+            if name in ("at",) and len(args) == 1:
+                return "%s[%s]" % (o, em.E(args[0]))
+            if name == "size":
+                return "((unsigned long)%s)" % em.tm.arr_insts[pointee[len("struct vf_arr_"):]][1]
+            return None
         if pointee.startswith("struct vf_ilist_"):
             return self.ilist_call(em, n, pointee[len("struct vf_ilist_"):], self.obj_ptr(em, base, arrow), name, args)
         if pointee == "struct vf_ihook":
